@@ -61,6 +61,10 @@ static Reg r_fwd("utmfwd", [](const Args& a) {
   // the INVALID conventions: a NaN or infinite coordinate (no explicit zone requested) or an INVALID request gives zone INVALID and NaN results; nothing else does
   if ((sz == -4 || ((!std::isfinite(lat) || !std::isfinite(lon)) && sz < 0)) != (zone == -4)) bad("documented-invalid", "UTMUPS::Forward: zone is INVALID for valid input, or not INVALID for NaN input / an INVALID request");
   if (zone == -4 && !(std::isnan(x) && std::isnan(y) && std::isnan(g) && std::isnan(k))) bad("documented-invalid", "UTMUPS::Forward: INVALID zone with non-NaN results");
+  // a finite position inside [-90, 90] never converts to NaN coordinates: it converts or the call throws
+  if (zone >= 0 && std::isfinite(lat) && std::isfinite(lon) && std::fabs(lat) <= 90 && (std::isnan(x) || std::isnan(y) || std::isnan(g) || std::isnan(k)))
+    bad("forward-finite", "UTMUPS::Forward returns NaN coordinates for a finite position (zone " + std::to_string(zone) + ")" +
+        (std::fabs(lat) < 1e-50 && zone > 0 && Math::AngDiff(doc::central_meridian(zone), lon) == -90 ? " [class:singular-point-west]" : ""));
   if (zone < 0 || !std::isfinite(lat) || !std::isfinite(lon) || std::isnan(x)) return;
   {
     // documented facts about the result, from the header's numbers alone
@@ -225,6 +229,14 @@ void gv::generate(const std::string& tier, uint64_t seed) {
     int szf = i % 2 == 0 ? -1 : (i % 4 == 1 ? -2 : (z0 > 0 ? std::max(1, std::min(60, z0 + r.irange(-1, 1))) : r.irange(-4, 60)));
     run("utmfwd", {hx(lat), hx(lon), std::to_string(szf), b(r.coin())});
     stratum(std::string("fwd-") + (szf == -1 ? "standard" : szf == -2 ? "utm" : "explicit"));
+    if (i % 16 == 3) {
+      // a requested zone whose central meridian is 60, 90, 120 or 180 degrees away (either side, +-ulp), on and next to the equator and at high latitude
+      int zf = r.irange(1, 60); double d = r.pick(std::vector<double>{60, 90, 120, 180, 59.999999, 45}) * (r.coin() ? 1 : -1);
+      double lo = doc::central_meridian(zf) + d; int u = r.irange(-1, 1); lo = u > 0 ? nextup(lo) : u < 0 ? nextdn(lo) : lo;
+      double la = r.pick(std::vector<double>{0.0, -0.0, 1e-9, -1e-9, 1e-300, 45, -45, 80, 89, 89.999999, 90, -90});
+      run("utmfwd", {hx(la), hx(lo), std::to_string(zf), b(r.coin())});
+      stratum("fwd-far-zone");
+    }
     if (i < 4) sample(current_op());
     // reverse: on / just inside / outside the rectangles
     int zone = r.irange(0, 5) == 0 ? 0 : r.irange(1, 60); if (i % 97 == 0) zone = r.pick(std::vector<int>{-4, -1, 61, -5});
